@@ -9,7 +9,9 @@
    of batches are unbounded. *)
 From Coq Require Import NArith List.
 From Blue Require Import Gen.Const_Log Log.ModelWire Log.Model Log.Inst
-  Log.ModelConc Log.ProofsWire Log.ProofsWriter Log.ProofsReader Log.ProofsTop Log.ProofsTotal Log.ProofsConc.
+  Log.ModelConcWL Log.ProofsWire Log.ProofsWriter Log.ProofsReader Log.ProofsTop Log.ProofsTotal
+  Log.ProofsWcqGhost Log.ProofsConcWL.
+From Blue Require Import Sync42.ModelLru Sync42.ModelWaitList Sync42.ModelWcq Sync42.PropsPrelude.
 Import ListNotations.
 Open Scope N_scope.
 
@@ -106,52 +108,95 @@ Theorem C12_source_block_size : HEADER_MAX_SIZE < 2 ^ BLOCK_BITS /\ BLOCK_SIZE =
 Proof. split; reflexivity. Qed.
 
 (* ================================================================ concurrent appends
-   The theorems below are about the small-step machine of Log/ModelConc.v: ConcurrentLogBuilder
-   over the *interface* of sync42's WorkCoalescingQueue (a leader atomically takes a non-empty
-   prefix of the linked inputs, works on it outside the queue lock, hands every taken caller the
-   output).  They are PARTIAL with respect to the property text: that sync42's wait list
-   implements these atomic steps for every interleaving of real threads is not proved here (it is
-   C18's subject); the check ties the machine to the code by multi-threaded runs (file
-   decomposition, per-thread order) and by the strace ordering of write / fdatasync / return. *)
+   ConcurrentLogBuilder::append at the level of sync42's WAIT LIST (Log/ModelConcWL.v): two copies of
+   the small-step interleaving model of WorkCoalescingQueue::do_work that area Sync42 owns
+   (Sync42/ModelWcq.v: threads as program counters with locals, the mutexes `state` and `core`,
+   condition variables with spurious wake-ups and an arbitrary notify_one choice, the ring of
+   waiters with fewer slots than threads allowed), instantiated with WriteCoalescingCore and
+   FsyncCoalescingCore of sst/src/log.rs and glued as `append` glues them (the value returned by
+   write_cq.do_work is the input of fsync_cq.do_work; a thread starts its next append only after
+   the previous one returned).  A schedule is ANY list of actions (thread t of queue W / queue F
+   takes its next step with notify choice c | wakes up spuriously); a blocked thread's action is a
+   no-op, so "for all sched" is "for every interleaving".  nW, nF: ring sizes; oracle: the outcomes
+   of the fdatasync calls (any list); progsW: the batches each thread appends, one call after the
+   other.  No atomicity of the queue is assumed: the queue-level facts (mutual exclusion of
+   leaders, index arithmetic, own output) come from Sync42's invariant, proved there for every
+   core.  What remains trusted: that ModelWcq.v is the real queue (C18's accepted-trace theorem and
+   runs), the four lines of glue, and the meaning of fdatasync (a successful call makes every byte
+   flushed so far durable). *)
+Definition batches_ok (progsW : list (list (list entry))) : Prop :=
+  forall es, In es (concat progsW) -> es <> [] /\ Forall wf_entry es.
 
-(* Whatever the schedule: a call that returned Ok had its batch written by a work whose last byte
-   is at or before the durable mark, i.e. an fdatasync that covers it completed before the return. *)
-Theorem C12_conc_ack_after_covering_sync_partial : forall bits crc rollover,
-  HEADER_MAX_SIZE < 2 ^ bits ->
-  forall s id, reachable bits crc rollover s -> In (id, true) (c_done s) ->
-  exists ww, In ww (c_log s) /\ In id (map fst (ww_taken ww)) /\ ww_res ww = WOk /\
-             ww_end ww <= c_durable s.
-Proof. intros bits crc rollover HB s id R H. exact (conc_acked_durable bits crc rollover HB s id R H). Qed.
+(* no schedule makes either queue, either core or the glue panic *)
+Theorem C12_conc_no_panic : forall bits crc rollover, HEADER_MAX_SIZE < 2 ^ bits ->
+  forall progsW, batches_ok progsW ->
+  forall nW nF oracle sched, (0 < nW)%nat -> (0 < nF)%nat ->
+  exists k, crun bits crc rollover (kinit nW nF oracle progsW) sched = Ok k.
+Proof. exact wl_no_panic. Qed.
 
-(* Whatever the schedule: the file is the sequential log (C12_roundtrip applies) of the merged
-   batches in the order of the works, reading it returns exactly the merged batches whose append
-   succeeded; every linked request is taken at most once, in link order, whole. *)
-Theorem C12_conc_each_batch_once_whole_partial : forall bits crc rollover,
-  HEADER_MAX_SIZE < 2 ^ bits ->
-  forall s, reachable bits crc rollover s ->
-  read_log bits crc (w_file (c_w s)) =
-    (concat (ok_batches (log_res (c_log s)) (log_ess (c_log s))), REnd) /\
-  NoDup (map fst (all_reqs s)) /\
-  (exists rest, all_reqs s = concat (map ww_taken (c_log s)) ++ rest) /\
-  concat (log_ess (c_log s)) = req_entries (concat (map ww_taken (c_log s))).
+(* Whatever the schedule: if a call of thread t has returned Ok(()) (its fsync_cq.do_work, linked
+   at index j of queue F, returned true), then it is the call thread t linked at index id of queue
+   W with the batch es, that call was handed Ok(w), and a `work` of the write core (entry e, k0-th
+   of its log) wrote es — at position id - (first index of that work) of the merged batch — with
+   res = WOk, and the last byte of that write is at or before the durable mark: an fdatasync that
+   covers it completed before the return. *)
+Theorem C12_conc_ack_after_covering_sync : forall bits crc rollover, HEADER_MAX_SIZE < 2 ^ bits ->
+  forall progsW, batches_ok progsW ->
+  forall nW nF oracle sched k, (0 < nW)%nat -> (0 < nF)%nat ->
+  crun bits crc rollover (kinit nW nF oracle progsW) sched = Ok k ->
+  forall t thF j, nth_error (g_threads (k_F k)) t = Some thF -> In (j, true) (t_done thF) ->
+  exists id w es thW k0 e,
+    nth_error (g_links (k_F k)) j = Some (t, (id, w)) /\
+    nth_error (g_links (k_W k)) id = Some (t, es) /\
+    nth_error (g_threads (k_W k)) t = Some thW /\ In (id, Some w) (t_done thW) /\
+    okentry (cw_log (cW k)) id w k0 e /\ lw_end e <= k_durable k /\
+    nth_error (lw_items e) (id - ProofsWcqGhost.total (firstn k0 (clogWl (cw_log (cW k))))) = Some es.
 Proof.
-  intros bits crc rollover HB s R. split; [exact (conc_read bits crc rollover HB s R)|].
-  exact (conc_once_in_order bits crc rollover HB s R).
+  intros bits crc rollover HB progsW Hok nW nF oracle sched k HnW HnF Hrun t thF j Ht Hd.
+  destruct (reach_KInv bits crc rollover HB progsW Hok nW nF oracle sched k HnW HnF Hrun) as (pF & HK).
+  exact (wl_acked bits crc rollover progsW pF k t thF j HK Ht Hd).
+Qed.
+
+(* Whatever the schedule: the file is the sequential log (C12_roundtrip applies) of the batches
+   the write core merged, in the order of its `work` calls — reading it returns exactly the merged
+   batches whose append succeeded — and the batches merged so far are exactly the first links of
+   queue W, in link order: every linked request at most once, whole. *)
+Theorem C12_conc_each_batch_once_whole : forall bits crc rollover, HEADER_MAX_SIZE < 2 ^ bits ->
+  forall progsW, batches_ok progsW ->
+  forall nW nF oracle sched k, (0 < nW)%nat -> (0 < nF)%nat ->
+  crun bits crc rollover (kinit nW nF oracle progsW) sched = Ok k ->
+  read_log bits crc (w_file (cw_w (cW k))) =
+    (concat (ok_batches (ProofsConcWL.log_res (cw_log (cW k))) (ProofsConcWL.log_ess (cw_log (cW k)))), REnd) /\
+  concat (map lw_items (cw_log (cW k))) = map snd (firstn (ProofsWcqGhost.total (clogW (cW k))) (g_links (k_W k))) /\
+  (ProofsWcqGhost.total (clogW (cW k)) <= length (g_links (k_W k)))%nat.
+Proof.
+  intros bits crc rollover HB progsW Hok nW nF oracle sched k HnW HnF Hrun.
+  destruct (reach_KInv bits crc rollover HB progsW Hok nW nF oracle sched k HnW HnF Hrun) as (pF & HK).
+  exact (wl_each_once bits crc rollover HB progsW Hok pF k HK).
 Qed.
 
 (* Whatever the schedule and wherever the file is cut at or after the durable mark: a batch whose
-   append returned Ok is read back, whole, inside its merged batch. *)
-Theorem C12_conc_acked_survives_cut_partial : forall bits crc rollover,
-  HEADER_MAX_SIZE < 2 ^ bits ->
-  forall s id, reachable bits crc rollover s -> In (id, true) (c_done s) ->
-  forall n, c_durable s <= len (firstn n (w_file (c_w s))) ->
-  exists ww es j r,
-    In ww (c_log s) /\ In (id, es) (ww_taken ww) /\ ww_res ww = WOk /\
-    read_log bits crc (firstn n (w_file (c_w s))) =
-      (concat (firstn j (ok_batches (log_res (c_log s)) (log_ess (c_log s)))), r) /\
-    (r = REnd \/ exists e, r = RErr e) /\
-    In (req_entries (ww_taken ww)) (firstn j (ok_batches (log_res (c_log s)) (log_ess (c_log s)))).
-Proof. intros bits crc rollover HB s id R H n Hn. exact (conc_acked_survives bits crc rollover HB s id R H n Hn). Qed.
+   append returned Ok(()) is read back, whole, inside the merged batch it was written in. *)
+Theorem C12_conc_acked_survives_cut : forall bits crc rollover, HEADER_MAX_SIZE < 2 ^ bits ->
+  forall progsW, batches_ok progsW ->
+  forall nW nF oracle sched k, (0 < nW)%nat -> (0 < nF)%nat ->
+  crun bits crc rollover (kinit nW nF oracle progsW) sched = Ok k ->
+  forall t thF j, nth_error (g_threads (k_F k)) t = Some thF -> In (j, true) (t_done thF) ->
+  forall n, k_durable k <= len (firstn n (w_file (cw_w (cW k)))) ->
+  exists id w es e jj r,
+    nth_error (g_links (k_F k)) j = Some (t, (id, w)) /\
+    nth_error (g_links (k_W k)) id = Some (t, es) /\
+    In e (cw_log (cW k)) /\ In es (lw_items e) /\
+    read_log bits crc (firstn n (w_file (cw_w (cW k)))) =
+      (concat (firstn jj (ok_batches (ProofsConcWL.log_res (cw_log (cW k))) (ProofsConcWL.log_ess (cw_log (cW k))))), r) /\
+    (r = REnd \/ exists er, r = RErr er) /\
+    In (concat (lw_items e))
+       (firstn jj (ok_batches (ProofsConcWL.log_res (cw_log (cW k))) (ProofsConcWL.log_ess (cw_log (cW k))))).
+Proof.
+  intros bits crc rollover HB progsW Hok nW nF oracle sched k HnW HnF Hrun t thF j Ht Hd n Hn.
+  destruct (reach_KInv bits crc rollover HB progsW Hok nW nF oracle sched k HnW HnF Hrun) as (pF & HK).
+  exact (wl_acked_survives bits crc rollover HB progsW Hok pF k t thF j HK Ht Hd n Hn).
+Qed.
 
 (* ---- the hypotheses are satisfiable by a non-trivial object: 32-byte blocks, three batches, the
    second one split across the first boundary, the third padded to the next; read back whole and
@@ -176,40 +221,25 @@ Example C12_example_roundtrip :
   read_log 5 ex_crc (firstn 85 file) = (concat (firstn 2 ex_batches), REnd).
 Proof. vm_compute. repeat split. Qed.
 
-(* a schedule exists in which two calls are merged into one frame, synced once and both return Ok *)
-Example C12_example_conc :
-  exists s, reachable 6 ex_crc DEFAULT_ROLLOVER s /\
-            In (0%nat, true) (c_done s) /\ In (1%nat, true) (c_done s) /\
-            length (c_log s) = 1%nat /\ c_durable s = 50 /\ c_synced s = 40.
+(* the hypotheses are satisfiable and finished states exist: two threads, one batch each, rings of
+   one slot (so the second link must wait), a round-robin schedule: both appends return Ok(()),
+   the write core merged nothing or both (whatever the schedule did), the file reads back *)
+Definition ex_sched : list caction :=
+  concat (repeat [AW (ARun 0 0); AW (ARun 1 0); AF (ARun 0 0); AF (ARun 1 0)] 60).
+Definition ex_progs : list (list (list entry)) :=
+  [[[{| e_key := [1; 2]; e_ts := 300; e_val := Some [9; 9; 9] |}]];
+   [[{| e_key := [3]; e_ts := 1; e_val := None |}; {| e_key := [4; 5; 6; 7]; e_ts := 2; e_val := Some [8] |}]]].
+
+Example C12_example_conc_ok : batches_ok ex_progs.
 Proof.
-  pose (b0 := [{| e_key := [1; 2]; e_ts := 300; e_val := Some [9; 9; 9] |}]).
-  pose (b1 := [{| e_key := [3]; e_ts := 1; e_val := None |}; {| e_key := [4; 5; 6; 7]; e_ts := 2; e_val := Some [8] |}]).
-  assert (W0 : Forall entry_ok b0) by (repeat constructor; cbn; discriminate).
-  assert (W1 : Forall entry_ok b1) by (repeat constructor; cbn; discriminate).
-  pose proof (R0 6 ex_crc DEFAULT_ROLLOVER) as H0.
-  eassert (H1 : reachable 6 ex_crc DEFAULT_ROLLOVER _).
-  { eapply RS; [exact H0|]. apply (Submit 6 ex_crc DEFAULT_ROLLOVER c0 0%nat b0); [intros []|discriminate|exact W0]. }
-  vm_compute in H1.
-  eassert (H2 : reachable 6 ex_crc DEFAULT_ROLLOVER _).
-  { eapply RS; [exact H1|]. eapply (Submit 6 ex_crc DEFAULT_ROLLOVER _ 1%nat b1); [cbn; intros [E|[]]; discriminate|discriminate|exact W1]. }
-  vm_compute in H2.
-  eassert (H3 : reachable 6 ex_crc DEFAULT_ROLLOVER _).
-  { eapply RS; [exact H2|]. eapply (LeadW 6 ex_crc DEFAULT_ROLLOVER _ (0%nat, b0) [(1%nat, b1)] []); reflexivity. }
-  vm_compute in H3.
-  eassert (H4 : reachable 6 ex_crc DEFAULT_ROLLOVER _).
-  { eapply RS; [exact H3|]. eapply WorkW; [reflexivity|]. vm_compute. reflexivity. }
-  vm_compute in H4.
-  eassert (H5 : reachable 6 ex_crc DEFAULT_ROLLOVER _).
-  { eapply RS; [exact H4|]. eapply (EnqF 6 ex_crc DEFAULT_ROLLOVER _ [] 0%nat 40 [(1%nat, 40)]). vm_compute. reflexivity. }
-  vm_compute in H5.
-  eassert (H6 : reachable 6 ex_crc DEFAULT_ROLLOVER _).
-  { eapply RS; [exact H5|]. eapply (EnqF 6 ex_crc DEFAULT_ROLLOVER _ [] 1%nat 40 []). vm_compute. reflexivity. }
-  vm_compute in H6.
-  eassert (H7 : reachable 6 ex_crc DEFAULT_ROLLOVER _).
-  { eapply RS; [exact H6|]. eapply (LeadF 6 ex_crc DEFAULT_ROLLOVER _ (0%nat, 40) [(1%nat, 40)] [] 40); vm_compute; reflexivity. }
-  vm_compute in H7.
-  eassert (H8 : reachable 6 ex_crc DEFAULT_ROLLOVER _).
-  { eapply RS; [exact H7|]. eapply WorkFSync; [reflexivity|vm_compute; reflexivity]. }
-  vm_compute in H8.
-  eexists. split; [exact H8|]. vm_compute. repeat split; auto.
+  intros es H. cbn in H. destruct H as [<-|[<-|[]]]; (split; [discriminate|]); repeat constructor; cbn; discriminate.
 Qed.
+
+Example C12_example_conc :
+  match crun 6 ex_crc DEFAULT_ROLLOVER (kinit 1 1 [] ex_progs) ex_sched with
+  | Ok k => map (fun th => map snd (t_done th)) (g_threads (k_F k)) = [[true]; [true]] /\
+            k_durable k = len (w_file (cw_w (cW k))) /\
+            fst (read_log 6 ex_crc (w_file (cw_w (cW k)))) = concat (concat ex_progs)
+  | _ => False
+  end.
+Proof. vm_compute. repeat split. Qed.
